@@ -51,9 +51,12 @@ macro_rules! fixed_impl {
             }
 
             /// Returns the absolute value of the number.
+            ///
+            /// Like the other operators of this type this wraps on overflow:
+            /// the absolute value of `MIN` is `MIN`.
             #[inline(always)]
             pub const fn abs(self) -> Self {
-                Self(self.0.abs())
+                Self(self.0.wrapping_abs())
             }
 
             /// Returns the largest integer less than or equal to the number.
@@ -230,7 +233,7 @@ macro_rules! fixed_mul_div {
             type Output = Self;
             #[inline(always)]
             fn neg(self) -> Self {
-                Self(-self.0)
+                Self(self.0.wrapping_neg())
             }
         }
     };
